@@ -30,7 +30,7 @@ def segPoint (a b : P) (t : Rat) : P := ⟨a.x + t * (b.x - a.x), a.y + t * (b.y
 
 /-- squared distance from `p` to the closed segment `ab` -/
 def segDist2 (p a b : P) : Rat :=
-  let l2 := dist2 a b
+  let l2 := dist2 b a
   if l2 = 0 then dist2 p a
   else dist2 p (segPoint a b (clamp01 (((p.x - a.x) * (b.x - a.x) + (p.y - a.y) * (b.y - a.y)) / l2)))
 
